@@ -485,6 +485,67 @@ def coq_body(body) -> str:
     return "[" + ";\n ".join(coq_stmt(s) for s in body) + "]"
 
 
+
+# ---------------------------------------------------------------------------
+# The code list handed to optimizer.optimize (Sections kept) -> coq/theories/Opt.v items
+
+class FlatInterner(Interner):
+    """one identifier per name, no scoping: used where two trees are compared node by node"""
+
+    def push(self):
+        pass
+
+    def pop(self):
+        pass
+
+    def declare(self, name):
+        return self._base(name)
+
+    def __call__(self, name):
+        return self._base(name)
+
+
+ANNOTS = {"fuse": "AFuse", "unroll": "AUnroll", "licm": "ALicm", "factorize": "AFactorize"}
+N_TEMPS = 800
+
+
+def conv_items(code, itn):
+    """list of LNodes as optimize() sees it -> [("IStmt", stmt) | ("ISec", name, stmts, decls, annots)]"""
+    import ffcx.codegeneration.lnodes as L
+
+    items = []
+    for n in code:
+        if type(n) is L.Section:
+            items.append(("ISec", str(n.name), [conv_stmt(x, itn) for x in n.statements],
+                          [conv_stmt(x, itn) for x in n.declarations], [ANNOTS[a.name] for a in n.annotations]))
+        elif isinstance(n, list):
+            # optimize() passes nested lists through untouched
+            def conv_l(x):
+                return ("SList", [conv_l(y) for y in x]) if isinstance(x, list) else conv_stmt(x, itn)
+            items.append(("IStmt", conv_l(n)))
+        else:
+            items.append(("IStmt", conv_stmt(n, itn)))
+    return items
+
+
+def conv_opt_call(before, after):
+    """both code lists of one optimize() call under one flat interner; temp_<k> pre-registered"""
+    itn = FlatInterner()
+    temps = [itn._base(f"temp_{k}") for k in range(N_TEMPS)]
+    return {"temps": temps, "before": conv_items(before, itn), "after": conv_items(after, itn)}
+
+
+def coq_items(items) -> str:
+    out = []
+    for it in items:
+        if it[0] == "IStmt":
+            out.append(f"IStmt ({coq_stmt(it[1])})")
+        else:
+            st = ";\n  ".join(coq_stmt(x) for x in it[2])
+            de = ";\n  ".join(coq_stmt(x) for x in it[3])
+            out.append(f'ISec (mkSec "{it[1]}" [{st}] [{de}] [{"; ".join(it[4])}])')
+    return "[" + ";\n ".join(out) + "]"
+
 # ---------------------------------------------------------------------------
 # The UFCx contract of a kernel, computed from the UFL-level data (form data,
 # elements, cells), *not* from the tables FFCx derives from them.
